@@ -109,8 +109,10 @@ def find_islands(im, bkg, rms,
     for i in range(n):
         xmin, xmax = f[i][0].start, f[i][0].stop
         ymin, ymax = f[i][1].start, f[i][1].stop
-        # obey seed clip constraint
-        if np.any(snr[xmin:xmax, ymin:ymax] > seed_clip):
+        # obey seed clip constraint: only this island's own pixels count,
+        # not those of other islands that share its bounding box
+        own = l[xmin:xmax, ymin:ymax] == i + 1
+        if np.any(snr[xmin:xmax, ymin:ymax][own] > seed_clip):
             # obey region constraint
             if region is not None:
                 y, x = np.where(snr[xmin:xmax, ymin:ymax] >= flood_clip)
